@@ -16,6 +16,7 @@
      cs dwaker d / dblwaker  FWakeWith d _, FWake (WDrain d) / FWake (WDouble k)
      api FIRE e, api RESUME                FFire e         api AWAITREG e, os poll pending      FJob .. PAwait e (not fired)
      api AWAITREADY e, os poll value/canceled   FJob .. PAwait e (fired)
+     api EITHERREG e / EITHERREADY e'      FJob .. PAwaitEither e e2 (neither fired: registered with both / e' = the first fired)
      api TWAKE t             FWake (WTask c) and the FUnpark c behind it        api UNPARKED        FPark
    Silent frames (LNone) are stepped lazily, just before the actor's next logged event.  FUnpark c frames are taken when c's
    next event needs the token.  Read-only sections the model does not have (debug_assert re-locks, the signaller's Drop, the
@@ -64,7 +65,8 @@ let show_waker = function WQueue -> "WQueue" | WThread c -> Printf.sprintf "WThr
 let show_job = function
   | JPlain o -> Printf.sprintf "JPlain %d" (i o)
   | JFut (o, st, sc) -> Printf.sprintf "JFut %d %s [%s]" (i o) (match st with NotCreated -> "new" | Waiting -> "run")
-                          (String.concat ";" (List.map (function PAwait e -> Printf.sprintf "w%d" (i e) | PSignal f -> Printf.sprintf "sig%d" (i f) | PTouch -> "t") sc))
+                          (String.concat ";" (List.map (function PAwait e -> Printf.sprintf "w%d" (i e) | PSignal f -> Printf.sprintf "sig%d" (i f) | PTouch -> "t"
+                                                            | PAwaitEither (e, e2) -> Printf.sprintf "o%d-%d" (i e) (i e2)) sc))
   | JSync (o, c, tk) -> Printf.sprintf "JSync %d c%d%s" (i o) (i c) (match tk with Some f -> Printf.sprintf " take%d" (i f) | None -> "")
 let show_frame = function
   | FTop l -> Printf.sprintf "FTop(%d left)" (List.length l) | FD1 j -> "FD1 " ^ show_job j | FD2 -> "FD2"
@@ -109,6 +111,9 @@ let parse_prog (text : string) : pinfo =
         | 'a' -> let (e, j') = num s (j + 1) in
           if j' >= n || s.[j'] <> '-' then raise (Unsupported ("malformed body in " ^ tok));
           let (e2, j'') = num s (j' + 1) in awaited := e :: !awaited; hev := e2 :: !hev; go j'' (PAwait (nat_of_int e) :: acc)
+        | 'o' -> let (e, j') = num s (j + 1) in          (* select-style await: registered with both events *)
+          if j' >= n || s.[j'] <> '-' then raise (Unsupported ("malformed body in " ^ tok));
+          let (e2, j'') = num s (j' + 1) in awaited := e :: e2 :: !awaited; go j'' (PAwaitEither (nat_of_int e, nat_of_int e2) :: acc)
         | 'g' -> raise (Unsupported "gate in a body (blocking closure)")
         | 'p' -> raise (Unsupported "panic in a body")
         | 's' -> raise (Unsupported "event fired from inside a body")
@@ -169,6 +174,8 @@ let at_of (s : state) (fr : frame) : lab option =
   | FSFpoll f -> (match (getf s (i f)).res with FSome _ | FReturned -> Some (Fres (i f)) | FNone -> Some Core)   (* no result yet: the core section nested in fres *)
   | FPIdle -> Some Core                                  (* the core section nested in the schedule section of next_to_run *)
   | FJob (JFut (_, Waiting, PAwait e :: _), _, _) -> if (getev s (i e)).fired then Some (Rdy (i e)) else Some (Reg (i e))
+  | FJob (JFut (_, Waiting, PAwaitEither (e, e2) :: _), _, _) ->      (* api EITHERREADY <first fired> / EITHERREG <e> *)
+    if (getev s (i e)).fired then Some (Rdy (i e)) else if (getev s (i e2)).fired then Some (Rdy (i e2)) else Some (Reg (i e))
   | FFire e -> Some (Fire (i e))
   | FWake (WTask c) -> Some (Twake (i c))
   | FPark _ -> Some Unparked
@@ -245,7 +252,7 @@ let replay (p : pinfo) (evs : ev array) : stats =
     | None -> None
     | Some s1 ->
       let s1 = (match fr with
-          | FFire e -> let n = List.length (getev !s (i e)).wakers in if n >= 2 then st.reorders <- st.reorders + 1; reverse_wakes s1 a n
+          (* FFire: the model calls the wakers oldest registration first, like the harness's event cell (no reordering needed any more) *)
           (* a suspend's resume channel is a futures oneshot: a second poll REPLACES the registered waker, the model's event cell
              (Model.v FJob .. PAwait: wakers := w :: wakers) keeps both and would wake twice at the fire: keep the newest only *)
           | FJob (JFut (_, _, PAwait e :: _), _, _) when List.mem (i e) p.susp_ev && List.length (getev s1 (i e)).wakers >= 2 ->
@@ -284,7 +291,16 @@ let replay (p : pinfo) (evs : ev array) : stats =
   let stutter a lab snap why =
     match lab with
     | Core | Sched | Dw _ ->
-      if agrees !s lab snap then st.stutters <- st.stutters + 1
+      if agrees !s lab snap then begin
+        (* thread::park may return without an unpark (shuttle models such wake-ups); the loop of run_one_job_now then re-reads the
+           state: harmless while it is WaitingForUnpark, but after a STALE WakeThread waker (of a finished sync caller, left
+           registered by a select-style await) has written Running the caller leaves the loop although nobody unparked it: the
+           model's FROpark needs the token *)
+        (match lab, top_of !s a with
+         | Core, Some (FROpark _) when not (arec a).token && (match !s.qs with Running | AwokenWhileRunning -> true | _ -> false) ->
+           raise (Unsupported "spurious wake-up of thread::park in run_one_job_now after a stale WakeThread wake (the model's FROpark needs the unpark token)")
+         | _ -> ());
+        st.stutters <- st.stutters + 1 end
       else begin
         (match top_of !s a, lab with
          | Some FSBwait, (Core | Sched) -> raise (Unsupported "sync_background claims (steals) the queue: the model abstracts the waiter's steal path (L1)")
@@ -355,7 +371,7 @@ let replay (p : pinfo) (evs : ev array) : stats =
     | "cs", ("core" | "sched" | "fres" | "dwaker" | "dblwaker") -> true
     | "new", ("fres" | "dwaker" | "dblwaker" | "oneshot") -> true
     | "os", _ -> true
-    | "api", ("RESUME" | "FIRE" | "AWAITREG" | "AWAITREADY" | "TWAKE" | "UNPARKED") -> true
+    | "api", ("RESUME" | "FIRE" | "AWAITREG" | "AWAITREADY" | "EITHERREG" | "EITHERREADY" | "TWAKE" | "UNPARKED") -> true
     | _ -> false in
   let is_hev e = List.mem e p.harness_evs in
   for k = 0 to n - 1 do
@@ -410,6 +426,8 @@ let replay (p : pinfo) (evs : ev array) : stats =
          | _ -> div "actor %d resumes/drops a QueueResumer, the model is at %s" a (show_top a))
       | "api", "AWAITREG" -> if not (is_hev e.id) then handle a (Reg e.id) ""
       | "api", "AWAITREADY" -> if not (is_hev e.id) then handle a (Rdy e.id) ""
+      | "api", "EITHERREG" -> handle a (Reg e.id) ""
+      | "api", "EITHERREADY" -> handle a (Rdy e.id) ""
       | "api", "TWAKE" -> (match Hashtbl.find_opt actor_of e.id with Some c -> handle a (Twake c) "" | None -> ())
       | "api", "UNPARKED" -> handle a Unparked ""
       | "cs", "core" when Hashtbl.mem held_sched e.task && getp a = [] && in_sbwait a ->
